@@ -8,6 +8,9 @@ PROPS = {
                 "full grid operator x bound 0..6 x actual count 0..7 (case index mod 280), the others are random incl. bounds up to 2^64-1; "
                 "blank/whitespace-only lines are inserted at random positions, content may start on the tag's line or end on the end tag's line, "
                 "nested blocks contribute their tag lines. Distinct = distinct (file text, constraints). Every case is non-trivial (it has a line-count block).",
+        "technique": "Rocq proof over a Gallina model of line_count.rs (parse/print round trip, count characterisation, violation iff) + differential correspondence (vm_compute) against the implementation",
+        "level_text": "Theorems in coq/props/C09.v hold for every operator, bound < 2^64, whitespace layout and content string (no size bound); the model is tied to the code by running both on a full operator x bound x count grid plus random cases on every run, each case also judged by the executable specification.",
+        "level_note": "Trusted: Coq kernel + vm_compute; the hand-written model (validated by the correspondence run); the harness; tree-sitter comment spans (taken from the implementation via the hook). No axioms.",
         "trusted_base": ["tree-sitter grammars (comment node spans are taken from the implementation through the hook)"],
         "assumptions": ["comment spans handed to the model are those the implementation's grammar produced"],
     },
